@@ -196,3 +196,15 @@ add("C02", "model_checking",
     "The real infer_constraints_by_class, jsonschema.generate and xsd._generate run on the six C15 templates whose comparison constants and operand orders are symbolic: each must return a result or errors and never raise. "
     "Every driver runs with a symbolic failing generator step, a symbolic failing file operation (OSError or UnicodeEncodeError) or a bad snippet: no exception and the C03 contract. Concretely, every corpus model goes through the real main.execute for all eight targets.",
     "Crashes inside the text templating of a generator for models outside the corpus are outside; regex VM translation is C18, literals C19.")
+
+add("C13", "translation_validation",
+    "z3 (QF_LIA) language inclusion L(meta-model pattern) subset of L(XSD pattern) over XML characters up to a length bound, XSD side read by a strict XML-Schema regex reader from the REAL _translate_pattern output; CrossHair/z3 symbolic execution of the real xsd._generate for length / list-size facets",
+    "Patterns: for every corpus pattern and a grammar-enumerated family the real xsd.main._translate_pattern output must be a well-formed XML Schema regular expression and must accept every string (XML characters, no line breaks, "
+    "length <= 4 / 7) which CPython's reading of the original pattern accepts -- decided by z3 for all strings at once. Facets: the real xsd._generate runs on templates with symbolic comparison constants; "
+    "minLength/maxLength/minOccurs/maxOccurs read from the emitted XSD must admit every length the invariants admit.",
+    "Patterns and facets only: validity of the XSD as a whole and validation of whole SDK-written documents are NOT claimed (no XSD validator / XML parser is symbolically executable here). Three open known findings.")
+
+add("C14", "translation_validation",
+    "same machinery as C13 in the converse direction: L(XSD pattern) subset of L(meta-model pattern) by z3; facets admit only lengths the own-class invariants admit (symbolic constants)",
+    "Converse of C13 for constraints a class declares itself or takes from a constrained primitive: every string the XSD pattern accepts is accepted by the meta-model pattern, every length the facets admit is admitted by the invariants.",
+    "The clause about unknown / misplaced / missing elements is NOT claimed (needs an XSD validator). One open known finding.")
